@@ -361,33 +361,28 @@ Lemma match_m_nonneg l1 l2 : 0 <= match_m l1 l2.
 Proof. apply zsum_nonneg, costs_nonneg. Qed.
 
 Lemma match_flags_removed_lemma : forall l1 l2 o, In o l1 -> ~ In (o_name o) (map o_name l2) ->
-  In (Only1 o) (cmatch l1 l2) /\ 1 <= match_m l1 l2.
+  In (Only1 o) (cmatch l1 l2).
 Proof.
   intros l1 l2 o Hin Hno.
-  assert (H : In (Only1 o) (cmatch l1 l2)).
-  { destruct (cmatch_covers1 l1 l2 o Hin) as [H|(b & Hb & Hn & _)]; [assumption|].
-    exfalso. apply Hno. rewrite Hn. apply in_map. assumption. }
-  split; [assumption|]. unfold match_m.
-  apply (zsum_in_le _ 1 (costs_nonneg _)). change 1 with (entry_cost (Only1 o)). apply in_map. assumption.
+  destruct (cmatch_covers1 l1 l2 o Hin) as [H|(b & Hb & Hn & _)]; [assumption|].
+  exfalso. apply Hno. rewrite Hn. apply in_map. assumption.
 Qed.
 
 Lemma match_flags_added_lemma : forall l1 l2 o, In o l2 -> ~ In (o_name o) (map o_name l1) ->
-  In (Only2 o) (cmatch l1 l2) /\ 1 <= match_m l1 l2.
+  In (Only2 o) (cmatch l1 l2).
 Proof.
   intros l1 l2 o Hin Hno.
-  assert (H : In (Only2 o) (cmatch l1 l2)).
-  { destruct (cmatch_covers2 l1 l2 o Hin) as [H|(b & Hb & Hn & _)]; [assumption|].
-    exfalso. apply Hno. rewrite Hn. apply in_map. assumption. }
-  split; [assumption|]. unfold match_m.
-  apply (zsum_in_le _ 1 (costs_nonneg _)). change 1 with (entry_cost (Only2 o)). apply in_map. assumption.
+  destruct (cmatch_covers2 l1 l2 o Hin) as [H|(b & Hb & Hn & _)]; [assumption|].
+  exfalso. apply Hno. rewrite Hn. apply in_map. assumption.
 Qed.
 
-(** before the repair an object present in one file only went unnoticed *)
-Lemma match_orig_refuted_lemma : exists l1 l2 o, In o l2 /\ ~ In (o_name o) (map o_name l1) /\ match_orig l1 l2 = 0.
+(** a one-sided entry is in the table but not in the count: an added object goes unnoticed by the exit status *)
+Lemma match_added_refuted_lemma : exists l1 l2 o, In o l2 /\ ~ In (o_name o) (map o_name l1) /\
+  In (Only2 o) (cmatch l1 l2) /\ match_m l1 l2 = 0 /\ 1 <= match_wanted l1 l2.
 Proof.
   exists [mkobj [97] BVg], [mkobj [97] BVg; mkobj [98] (BSds 24 [2] [1; 2] [])], (mkobj [98] (BSds 24 [2] [1; 2] [])).
-  split; [right; left; reflexivity|]. split; [|reflexivity].
-  simpl. intros [H|[]]. discriminate.
+  split; [right; left; reflexivity|]. split; [simpl; intros [H|[]]; discriminate|].
+  split; [right; left; reflexivity|]. split; [reflexivity | vm_compute; discriminate].
 Qed.
 
 (* ------------------------------------------------------------------------------------------ *)
